@@ -14,6 +14,8 @@ def _spec(**kw):
              pulse=0, maxpulse=0, cat=False, slow_on="", after=0,
              # commands
              recv=[], terminal="complete", unstamped_error=False, csuffix=".recv", cttl="forever", cappends=[],
+             # (interleave: the explicit appends happen while the output stream is drained: append, value, append, value, ...)
+             interleave=False,
              # generators
              duplex=False, panics=False, nocontent=False, values=[], per_send=1, refused=False)
     d.update(kw)
@@ -27,7 +29,7 @@ def _out(topic, k, ttl="forever", um=-1, stored=True):
 
 # ------------------------------------------------------------------------------ handlers
 def handler(name_of_ret="{name}", react="t", resume="tail", appends=(), ret="rec", suffix=None, ttl=None,
-            fail=None, pulse=0, slow=False, cat=False):
+            fail=None, pulse=0, slow=False, cat=False, lazy=False):
     """appends: list of dicts {topic, meta: None|'user'|'collide', ttl: None|str, context: None|'other'|'zero'}"""
     cfg = []
     if resume != "tail":
@@ -53,6 +55,7 @@ def handler(name_of_ret="{name}", react="t", resume="tail", appends=(), ret="rec
     if fail == "before":
         body.append(failstmt)
     outs = []
+    lazy_stmts = []
     rec = lambda k: '{k: "%s", n: $env.n, tid: $frame.id, t: $frame.topic}' % k
     for i, a in enumerate(appends):
         k = f"a{i + 1}"
@@ -70,7 +73,10 @@ def handler(name_of_ret="{name}", react="t", resume="tail", appends=(), ret="rec
             flags += " --context {{ctx:1}}"
         elif a.get("context") == "zero":
             flags += " --context {{ctx:0}}"
-        body.append(f"{rec(k)} | .append {a['topic']}{flags}")
+        if lazy:
+            lazy_stmts.append(f"{rec(k)} | .append {a['topic']}{flags}")
+        else:
+            body.append(f"{rec(k)} | .append {a['topic']}{flags}")
         outs.append(_out(a["topic"], k, ttl=a.get("ttl") or "forever", um=um, stored=a.get("ttl") != "ephemeral"))
         if fail == "mid" and i == 0:
             body.append(failstmt)
@@ -87,6 +93,10 @@ def handler(name_of_ret="{name}", react="t", resume="tail", appends=(), ret="rec
         "bool": "true",
         "none": "null",
     }[ret]
+    if lazy:
+        # the appends happen inside the stream the closure returns: they run when the value is collected, not before
+        assert ret == "list"
+        retexpr = retexpr + ' | each {|x| if $x == "ret" { ' + "; ".join(lazy_stmts) + " }; $x }"
     body.append(retexpr)
     if ret != "none":
         rk = {"rec": "ret", "str": "ret", "list": "ret", "int": "int", "bool": "bool:true"}[ret]
@@ -164,6 +174,8 @@ HANDLERS = {
     "h_fail_mid": handler(fail="mid", appends=[A1, A2U]),
     "h_fail_after": handler(fail="after", appends=[A1, A2U]),
     # C06: script-visible isolation
+    "h_eph_fail": handler(ttl="ephemeral", fail="before", appends=[A1]),
+    "h_lazy": handler(appends=[A1, dict(topic="o.a2")], ret="list", lazy=True),
     "h_cat": handler(cat=True),
     "h_cat_head": handler(cat=True, resume="head"),
     # invalid scripts
@@ -208,7 +220,7 @@ def handler_after(action_index, **kw):
 
 
 # ------------------------------------------------------------------------------ commands
-def command(values=("r1", "r2"), appends=0, err=None, suffix=None, ttl=None, slow=False, tag="v", cat=False, env=False):
+def command(values=("r1", "r2"), appends=0, err=None, suffix=None, ttl=None, slow=False, tag="v", cat=False, env=False, lazy=False):
     cfg = []
     ro = []
     if suffix:
@@ -232,11 +244,19 @@ def command(values=("r1", "r2"), appends=0, err=None, suffix=None, ttl=None, slo
         body.append("$env.q = ($env.q? | default 0) + 1")
         extra += ", n: $env.q"
     vals = " ".join('{k: "%s.%s", tid: $frame.id, t: $frame.topic%s}' % (tag, v, extra) for v in values)
-    body.append(f"[{vals}]" if len(values) != 1 else vals)
+    if lazy:
+        # a stream that is produced while it is drained, with an explicit append per value (overlapping calls keep
+        # their stamps apart although their streams are drained at the same time)
+        names = " ".join(values)
+        body.append('[%s] | each {|v| sleep 40ms; {k: $"%s.a.($v)", tid: $frame.id, t: $frame.topic} | .append p.a1; '
+                    '{k: $"%s.($v)", tid: $frame.id, t: $frame.topic} }' % (names, tag, tag))
+        capp = [_out("p.a1", f"{tag}.a.{v}") for v in values]
+    else:
+        body.append(f"[{vals}]" if len(values) != 1 else vals)
     script = "{\n" + "".join(f"  {c}\n" for c in cfg) + "  run: {|frame|\n" + "".join(f"    {b}\n" for b in body) + "  }\n}\n"
     return dict(_spec(fam="c", recv=[f"{tag}.{v}" for v in values] if err != "runtime" else [],
                       terminal="error" if err == "runtime" else "complete", csuffix=suffix or ".recv",
-                      cttl=ttl or "forever", cappends=capp, slow_on="*" if slow else "", cat=cat), script=script)
+                      cttl=ttl or "forever", cappends=capp, slow_on="*" if slow else "", cat=cat, interleave=lazy), script=script)
 
 
 COMMANDS = {
@@ -249,6 +269,7 @@ COMMANDS = {
     "c_suffix": command(values=("r1", "r2"), suffix=".res", ttl=TTL_T),
     "c_slow": command(values=("r1", "r2"), slow=True, tag="s"),
     "c_cat": command(values=("r1",), cat=True),
+    "c_lazy": command(values=("r1", "r2", "r3"), lazy=True, tag="z"),
     "c_env": command(values=("r1", "r2"), env=True, tag="e"),
     "c_bad_parse": dict(_spec(fam="c", valid=False), script="{run: {|frame| ( }"),
     "c_bad_norun": dict(_spec(fam="c", valid=False), script='{foo: "bar"}'),
